@@ -225,6 +225,7 @@ def cmd_check(a):
         "simulated_time": "not applicable: the library has no timers or deadlines; progress is counted in logical "
                           "steps (history events)",
         "fault_kinds_fired": fault_kinds,
+        "distinct_by_measure": {k: len(v) for k, v in sorted((agg.get("measures") or {}).items())},
         "probes": dict(agg["probes"]),
         "profiles": dict(agg["profiles"]),
         "pythonhashseeds": hashseeds,
